@@ -191,7 +191,7 @@ func returnedStrings(fn *ssa.Function) []string {
 func c20(c *core.Check) {
 	p := c.Prog
 	c.Explain = "Structural necessary conditions of serialize/re-tokenize round-tripping: the separator table contains every pair of adjacent token kinds that would fuse with this tokenizer (CSS Syntax 3 §9 table, each row confirmed); its vocabulary is what Kind.String() and literal tokens can produce, so no row is silently dead; every ParseError kind the tokenizer can put in a token list is serialisable; the string, url and name escapers cover the characters CSS Syntax §4.3 requires. Also decided: an escaped leading digit ends with a space, the character after a leading dash goes through the identifier-start escaping, exponent-like units are escaped with the letter's own code, and the fusing pairs of literal tokens computed from the tokenizer's vocabulary are in the table. Numeric representation of values built in code is not decided."
-	r1 := c.Rule("R1", "parser.badPairs (its init loops evaluated as a cross product of literals, no execution) contains every fusing pair of the §9 table", 67)
+	r1 := c.Rule("R1", "parser.badPairs (its init loops evaluated as a cross product of literals, no execution) contains every fusing pair of the §9 table", 72)
 	bp, err := evalBadPairs(p)
 	if err != nil {
 		r1.Unknown("parser.badPairs", "-", err.Error())
@@ -308,7 +308,7 @@ func c20(c *core.Check) {
 		r1.Cond(okLookup, "serializeTo consults badPairs", p.Pos(st.Pos()), "lookup present", "serializeTo no longer consults badPairs")
 	}
 
-	r2 := c.Rule("R2", "every component of a badPairs key is a value of Kind.String() or a punctuation literal: a misspelt kind name silently disables a row", 32)
+	r2 := c.Rule("R2", "every component of a badPairs key is a value of Kind.String() or a punctuation literal: a misspelt kind name silently disables a row", 35)
 	ks := p.Method("css/parser", "Kind", "String")
 	if ks == nil {
 		r2.Anchor("css/parser.Kind.String")
@@ -750,7 +750,7 @@ func c20EscapeTerminator(c *core.Check) {
 // follows: an escape written without it swallows a space or tab that is part of the value ("one\A  two").
 func c20HexEscapesEndWithSpace(c *core.Check) {
 	p := c.Prog
-	r := c.Rule("R6", "hexadecimal escapes are always terminated: every string constant of css/parser's serializers that spells a hexadecimal escape (backslash and hex digits) ends with a space — there is no escape constant without it, whose space would then depend on what follows", 3)
+	r := c.Rule("R6", "hexadecimal escapes are always terminated: every string constant of css/parser's serializers that spells a hexadecimal escape (backslash and hex digits) ends with a space — there is no escape constant without it, whose space would then depend on what follows", 6)
 	n := 0
 	for _, name := range []string{"serializeStringValue", "serializeURL", "endEscape"} {
 		fn := p.Fn("css/parser", name)
